@@ -89,9 +89,10 @@ Inductive rpc :=
 | LockCas (gn : N) (kl : klock)
 | RecLoad (n d : N) (m : rmode) (mask : N)
 | RecCas (n d : N) (m : rmode) (mask : N)
-| RecEnd (mask : N).
+| RecEnd (d mask : N).                    (* d: ghost, the owner this recover is about *)
 
-Record rlst := { rprog : list rop; rpc_of : rpc; rheld : list (N * N) }.
+Record rlst := { rprog : list rop; rpc_of : rpc; rheld : list (N * N);
+                 rstamp : N (* ghost: value of `acqs` when the running recover call started *) }.
 
 Record rgst := {
   rcap : N; rdist : N; cells : list N; gen : N;
@@ -99,7 +100,9 @@ Record rgst := {
   rholder : list (option Datatypes.nat);  (* cell -> thread whose acquire CAS populated it *)
   rdone : list bool;                      (* that acquire has incremented the generation counter (returned Ok) *)
   cleared_at : list (option N);           (* cell -> value of the generation counter when a release/recover last cleared it *)
-  recovered : list N                      (* owner ids some recover CAS has succeeded for *)
+  recovered : list N;                     (* owner ids some recover CAS has succeeded for *)
+  acqs : N;                               (* number of successful acquire cell CASes so far *)
+  pop_stamp : list N                      (* cell -> value of `acqs` right after the CAS that populated it last *)
 }.
 
 Definition B_GEN : N := 0.
@@ -108,17 +111,23 @@ Definition B_RDIST : N := 2.
 Definition dist_ev (dist : N) (site : N) : ev := EAcc site B_RDIST 0 KLoad Relaxed Relaxed dist 0 true.
 
 Definition set_r (l : rlst) (p : list rop) (c : rpc) (h : list (N * N)) : rlst :=
-  {| rprog := p; rpc_of := c; rheld := h |}.
+  {| rprog := p; rpc_of := c; rheld := h; rstamp := rstamp l |}.
 
 Definition set_cell (g : rgst) (i v : N) (ho : option Datatypes.nat) (ca : option N) (rec : list N) : rgst :=
   {| rcap := rcap g; rdist := rdist g; cells := updN (cells g) i v; gen := gen g;
-     rholder := updN (rholder g) i ho; rdone := updN (rdone g) i false; cleared_at := updN (cleared_at g) i ca; recovered := rec |}.
+     rholder := updN (rholder g) i ho; rdone := updN (rdone g) i false; cleared_at := updN (cleared_at g) i ca; recovered := rec;
+     acqs := acqs g; pop_stamp := pop_stamp g |}.
+(* ghost bookkeeping of a successful acquire CAS on cell i *)
+Definition set_pop (g : rgst) (i : N) : rgst :=
+  {| rcap := rcap g; rdist := rdist g; cells := cells g; gen := gen g; rholder := rholder g; rdone := rdone g;
+     cleared_at := cleared_at g; recovered := recovered g; acqs := acqs g + 1; pop_stamp := updN (pop_stamp g) i (acqs g + 1) |}.
 Definition set_gen (g : rgst) (v : N) (dn : list bool) : rgst :=
-  {| rcap := rcap g; rdist := rdist g; cells := cells g; gen := v; rholder := rholder g; rdone := dn; cleared_at := cleared_at g; recovered := recovered g |}.
+  {| rcap := rcap g; rdist := rdist g; cells := cells g; gen := v; rholder := rholder g; rdone := dn; cleared_at := cleared_at g; recovered := recovered g;
+     acqs := acqs g; pop_stamp := pop_stamp g |}.
 
 Definition acq_next (g : rgst) (d cur n : N) : rpc := if N.ltb n (rcap g) then AScan d cur n else AFinal d cur.
 Definition rec_next (g : rgst) (n d : N) (m : rmode) (mask : N) : rpc :=
-  if N.ltb n (rcap g) then RecLoad n d m mask else RecEnd mask.
+  if N.ltb n (rcap g) then RecLoad n d m mask else RecEnd d mask.
 Definition scan_next (g : rgst) (init n count : N) (k : kscan) : rpc :=
   if N.ltb n (rcap g) then ScanCell init n count k else IncLoad (KScan init count k).
 
@@ -188,7 +197,7 @@ Definition rstep (t : nat) (g : rgst) (l : rlst) : option (rgst * rlst * list ev
     | RRecover d m :: p =>
       let e := EAcc 70 B_GEN 0 KLoad Relaxed Relaxed (gen g) 0 true in
       if N.eqb (gen g) MAX64 then Some (g, set_r l p RIdle (rheld l), [e; ERet (rc_recover true 0)])
-      else Some (g, set_r l p (RecDist d m) (rheld l), [e])
+      else Some (g, {| rprog := p; rpc_of := RecDist d m; rheld := rheld l; rstamp := acqs g |}, [e])
     end
   | AStart d =>
     let e := EAcc 50 B_GEN 0 KLoad Acquire Acquire (gen g) 0 true in
@@ -207,7 +216,7 @@ Definition rstep (t : nat) (g : rgst) (l : rlst) : option (rgst * rlst * list ev
   | AScan d cur n =>
     let v := nthN (cells g) n 0 in
     if N.eqb v EMPTY
-    then Some (set_cell g n d (Some t) (nthN (cleared_at g) n None) (recovered g),
+    then Some (set_pop (set_cell g n d (Some t) (nthN (cleared_at g) n None) (recovered g)) n,
                set_r l (rprog l) (IncLoad (KAcq d n)) (rheld l),
                [EAcc 51 B_CELL n KCas Relaxed Relaxed v d true])
     else Some (g, set_r l (rprog l) (acq_next g d cur (n + 1)) (rheld l),
@@ -261,7 +270,7 @@ Definition rstep (t : nat) (g : rgst) (l : rlst) : option (rgst * rlst * list ev
                [EAcc 72 B_CELL n KCas Relaxed Relaxed v EMPTY true])
     else Some (g, set_r l (rprog l) (rec_next g (n + 1) d m mask) (rheld l),
                [EAcc 72 B_CELL n KCas Relaxed Relaxed v EMPTY false])
-  | RecEnd mask =>
+  | RecEnd _ mask =>
     Some (g, set_r l (rprog l) RIdle (rheld l),
           [EAcc 73 B_GEN 0 KLoad Relaxed Relaxed (gen g) 0 true; ERet (rc_recover (N.eqb (gen g) MAX64) mask)])
   end.
@@ -269,6 +278,6 @@ Definition rstep (t : nat) (g : rgst) (l : rlst) : option (rgst * rlst * list ev
 Definition rg_init (c dist : N) : rgst :=
   {| rcap := c; rdist := dist; cells := repeat EMPTY (N.to_nat c); gen := 0;
      rholder := repeat None (N.to_nat c); rdone := repeat false (N.to_nat c);
-     cleared_at := repeat None (N.to_nat c); recovered := [] |}.
-Definition rl_init (p : list rop) : rlst := {| rprog := p; rpc_of := RIdle; rheld := [] |}.
+     cleared_at := repeat None (N.to_nat c); recovered := []; acqs := 0; pop_stamp := repeat 0 (N.to_nat c) |}.
+Definition rl_init (p : list rop) : rlst := {| rprog := p; rpc_of := RIdle; rheld := []; rstamp := 0 |}.
 Definition rinit (c dist : N) (progs : nat -> list rop) : cfg rgst rlst := (rg_init c dist, fun t => rl_init (progs t)).
